@@ -61,7 +61,7 @@ def run(ctx):
         fnp = p.get_function('base_wallet.BaseWallet.node_extended_private_key')
         with ctx.obligation('C14.EMPTY', 'private requests on a watch-only wallet', be, fnp.where) as ob:
             ev = Evaluator(p, be)
-            w, secrets = paper_wallet('pub', T.FALSE)
+            w, secrets = paper_wallet('pub', T.FALSE, p, be)
             master = T.obj_fields(w)['master']
             child, _ = ev.call_function('bip32.PubKeyNode.ckd', [master, T.const(0)])
             child = _strip_raise(child)
@@ -121,7 +121,7 @@ def run(ctx):
     sub = ctx.__class__('C14', ctx.tier, ctx.p, ctx.seed)
     C13.run(sub)
     for o in sub.obligations:
-        if o.rule in ('C13.NOREAD', 'C13.WRITES'):
+        if o.rule in ('C13.NOREAD', 'C13.WRITES', 'C13.INPLACE'):
             o.rule = 'C14.' + o.rule.split('.', 1)[1] + '(=C13)'
             ctx.obligations.append(o)
     # "for every non-hardened sub-path ... refuses hardened derivation": sub-paths given to by_path on a wallet over an
